@@ -79,6 +79,23 @@ extern "C" void k_ind_to_rank()
   vf_assert_id((long)r == ref, "indiceToRank: mixed-radix value, first dimension fastest");
   int back[VF_ND];
   g->rankToIndice(r, vectint(back, VF_ND), false);
+#if VF_ND >= 3
+  {
+    // solver hints only (vf_split is a case analysis, both cases are decided): the partial products
+    // rankToIndice divides by are the exact products, and the higher digits already agree
+    int nval = 1;
+    for (int d = 0; d < VF_ND; d++) nval *= nx[d];
+    int prod = nval;
+    for (int d = VF_ND - 1; d >= 1; d--)
+    {
+      nval /= nx[d];
+      prod = 1;
+      for (int e = 0; e < d; e++) prod *= nx[e];
+      vf_split(nval == prod);
+      vf_split(back[d] == ind[d]);
+    }
+  }
+#endif
   for (int d = 0; d < VF_ND; d++)
     vf_assert_id(back[d] == ind[d], "rankToIndice(indiceToRank(i)) == i");
   vf_witness();
